@@ -68,7 +68,7 @@ JudgeReopen(e) ==
       "Reopen.agreesWithModel")
 
 TraceInit == /\ children = <<>> /\ mem = {} /\ disk = {} /\ batch = {} /\ stack = <<>>
-             /\ durable = {} /\ pc = "idle" /\ commits = 0 /\ target = 0 /\ flushed = {}
+             /\ durable = {} /\ pc = "idle" /\ commits = 0 /\ target = 0 /\ flushed = {} /\ inserted = {} /\ flist = <<>>
              /\ l = 1 /\ bad = <<>>
 
 TraceNext ==
@@ -93,7 +93,7 @@ TraceNext ==
          /\ disk' = d2
          /\ durable' = IF e.event = "Reset" THEN {} ELSE IF e.event = "Committed" THEN durable \cup {e.root} ELSE durable
          /\ commits' = IF e.event = "Committed" THEN commits + 1 ELSE commits
-         /\ UNCHANGED <<mem, batch, stack, pc, target, flushed>>
+         /\ UNCHANGED <<mem, batch, stack, pc, target, flushed, inserted, flist>>
          /\ bad' = bad \o Fresh(e.event, j)
 
 TraceSpec == TraceInit /\ [][TraceNext]_tvars
